@@ -387,3 +387,17 @@ func VerifC05_ContinuousPoolShutdown() { c02ContinuousEnv(2, 1, true) }
 //verif:replace (*$M/internal/workers.ActiveScenario).RecordDroppedIteration c02DroppedFn
 //verif:replace (*$M/internal/workers.PoolManager).NextIteration c02NextIteration
 func VerifC05_PoolShutdown() { c02Scenario(c02Config{workers: 1, ticks: 2, nmax: 2, maxLimit: 2}) }
+
+// VerifC01_PoolCountsEachRequestOnce: the one-worker pool scenario under C01: every request ends in exactly one of
+// the result's counters - an iteration that was started is never ALSO recorded as dropped, and the dropped count is
+// the number of requests that were superseded or pending at the stop (no iteration is double-counted).
+//
+//verif:conc
+//verif:unroll 3
+//verif:timeout 300
+//verif:replace (*$M/internal/workers.ActiveScenario).Run c02RunFn
+//verif:replace (*sync.Cond).Wait c02CondWait
+//verif:replace (*sync.WaitGroup).Done c02WgDone
+//verif:replace (*$M/internal/workers.ActiveScenario).RecordDroppedIteration c02DroppedFn
+//verif:replace (*$M/internal/workers.PoolManager).NextIteration c02NextIteration
+func VerifC01_PoolCountsEachRequestOnce() { c02Scenario(c02Config{workers: 1, ticks: 2, nmax: 2, maxLimit: 2}) }
